@@ -680,6 +680,67 @@ gen_plan_entry(const ProfileCfg &pc, uint64_t run_seed)
         return p;
 }
 
+
+// C17: entry-point plans on two managers. Both managers issue the synchronous bursts and direct calls of an entry plan
+// (each op goes to one of them; a manager whose own queue is not empty skips its synchronous bursts), and both get
+// asynchronous jobs of the same suites parked through the job API in between, flushed now and then and at the end.
+// Each task's history must equal its history when run alone (checked by the indep post step).
+Plan
+gen_plan_indep_entry(const ProfileCfg &pc, uint64_t run_seed)
+{
+        ProfileCfg pe = profile_by_name("entry", pc.prop, 0);
+        pe.oracles = pc.oracles;
+        Plan e = gen_plan_entry(pe, run_seed);
+        Rng r(mix64(run_seed, 0x17E));
+        Plan p = e;
+        p.profile = pc.name;
+        p.prop = pc.prop;
+        p.oracles = pc.oracles;
+        const int cfg = e.task_cfg.empty() ? 0 : e.task_cfg[0];
+        // the same variant four times out of five (what is shared between managers is per variant), otherwise any other
+        p.task_cfg = { r.below(5) ? cfg : (int) r.below(NCFG), cfg };
+        p.ops.clear();
+        uint32_t parked[2] = { 0, 0 };
+        auto drain = [&](uint8_t t) {
+                for (uint32_t i = 0; i < parked[t] + 1; i++) {
+                        Op fo;
+                        fo.kind = OP_FLUSH;
+                        fo.task = t;
+                        p.ops.push_back(fo);
+                }
+                parked[t] = 0;
+        };
+        for (const Op &eo : e.ops) {
+                const uint8_t t = (uint8_t) r.below(2);
+                if (!eo.jobs.empty() && !(eo.kind == OP_DIRECT && eo.a == D_CFB_ONE) && r.chance(0.5)) {
+                        // park jobs of the same suite on one of the managers (one-shot descriptors: what the job API takes)
+                        const uint8_t pt = (uint8_t) r.below(2);
+                        uint32_t k = r.range(1, 3);
+                        for (uint32_t i = 0; i < k && parked[pt] < 40; i++) {
+                                const JobSpec &src = eo.jobs[r.below((uint32_t) eo.jobs.size())];
+                                if (src.viol || src.cipher == IMB_CIPHER_GCM_SGL || src.cipher == IMB_CIPHER_CHACHA20_POLY1305_SGL)
+                                        continue;
+                                Op so;
+                                so.kind = OP_SUBMIT;
+                                so.task = pt;
+                                JobSpec j = src;
+                                j.seed = r.next();
+                                so.jobs.push_back(j);
+                                p.ops.push_back(so);
+                                parked[pt]++;
+                        }
+                }
+                if (parked[t] && r.chance(0.6))
+                        drain(t); // so that this manager's synchronous burst is not skipped
+                Op o = eo;
+                o.task = t;
+                p.ops.push_back(o);
+        }
+        drain(0);
+        drain(1);
+        return p;
+}
+
 // ------------------------------------------------------------------ C10: SGL streams
 Plan
 gen_plan_sgl(const ProfileCfg &pc, uint64_t run_seed)
